@@ -32,6 +32,8 @@ META = {
 
 META['explanation'] += ' ' + "R8: a slice of the input bounded by a declared length is preceded by an availability check. R9: the SSL 2.0 RECORD-LENGTH arithmetic evaluated for every value of the first header byte, both header forms. R10: input handed to an ASN.1 decoder has had the indefinite length form refused (the decoder's dump() omits the end-of-contents octets)."
 
+META['explanation'] += ' ' + 'R4: the byte level primitives of ParserBinary are evaluated with the real struct module around every boundary. R7 follows chains of helper methods. R11: the identification string ends with its line feed, whatever follows (shared with C07.R6).'
+
 SIZE_ARGS = {
     'parse_raw': ['size'], 'parse_mpint': ['mpint_length'], 'parse_numeric_array': ['item_num'],
     'parse_parsable_array': ['items_size'], 'parse_parsable_derived_array': ['items_size'],
